@@ -5,6 +5,7 @@ import numpy as np
 from hypothesis import strategies as st
 
 from vp import sut
+from vp.gens import weighted
 from vp.gens import meta as gm, recording as rec
 
 ID = "C11"
@@ -73,7 +74,7 @@ def _cbin_rate_case(draw):
 
 
 def strategy(tier):
-    return st.one_of(*([_case()] * 9 + [_cbin_rate_case()]))
+    return weighted((9, _case()), (1, _cbin_rate_case()))
 
 
 def _lengths(frame, ns_file, pick):
